@@ -59,19 +59,62 @@ def establishes(formula, wanted: Callable, bypass: Callable) -> bool:
     return got
 
 
-def guard_edge_set(cfg: CFG, wanted: Callable, bypass: Callable):
+def guard_edge_set(cfg: CFG, wanted: Callable, bypass: Callable, rewrite: Callable | None = None):
     res = set()
     for n in cfg.nodes:
         if n.kind == "test" and isinstance(n.stmt, (ast.If, ast.While)):
+            test = rewrite(n.stmt.test) if rewrite is not None else n.stmt.test
             for lab, pos in (("true", True), ("false", False)):
-                if establishes(nnf(n.stmt.test, pos), wanted, bypass):
+                if establishes(nnf(test, pos), wanted, bypass):
                     res.add((n.id, lab))
     return res
 
 
-def unguarded_path(cfg: CFG, targets, wanted: Callable, bypass: Callable = lambda l: False, extra_avoid_nodes=()):
+def inline_predicates(resolve: Callable):
+    """A test rewriter for guard queries: a call of a predicate helper - a function whose body is a single
+    `return <expression>` (after its docstring) - is replaced by that expression with the arguments substituted, so a
+    guard that was moved into a helper establishes the same literals.  `resolve(name)` gives the helper's FunctionDef."""
+    def fresh(node: ast.AST) -> ast.AST:
+        # nodes of the index carry parent links: a deep copy would drag the whole module along
+        return ast.parse(ast.unparse(node), mode="eval").body
+
+    def rewrite(test: ast.AST, depth: int = 0) -> ast.AST:
+        class _T(ast.NodeTransformer):
+            def visit_Call(self, node):
+                self.generic_visit(node)
+                if depth > 3 or not isinstance(node.func, ast.Name) or node.keywords:
+                    return node
+                fn = resolve(node.func.id)
+                if fn is None:
+                    return node
+                body = [s for s in fn.body if not (isinstance(s, ast.Expr) and isinstance(s.value, ast.Constant) and isinstance(s.value.value, str))]
+                params = [a.arg for a in fn.args.args]
+                if len(body) != 1 or not isinstance(body[0], ast.Return) or body[0].value is None or len(params) != len(node.args) or fn.args.vararg or fn.args.kwarg:
+                    return node
+                sub = dict(zip(params, node.args))
+
+                class _S(ast.NodeTransformer):
+                    def visit_Name(self, n):
+                        return fresh(sub[n.id]) if n.id in sub and isinstance(n.ctx, ast.Load) else n
+
+                return rewrite(_S().visit(fresh(body[0].value)), depth + 1)
+
+        return ast.fix_missing_locations(_T().visit(fresh(test)))
+
+    memo: dict[int, tuple[ast.AST, ast.AST]] = {}
+
+    def cached(test: ast.AST) -> ast.AST:
+        hit = memo.get(id(test))
+        if hit is None or hit[0] is not test:
+            hit = memo[id(test)] = (test, rewrite(test))
+        return hit[1]
+
+    return cached
+
+
+def unguarded_path(cfg: CFG, targets, wanted: Callable, bypass: Callable = lambda l: False, extra_avoid_nodes=(), rewrite: Callable | None = None):
     """None if every path entry -> target passes an establishing edge; else a witness path."""
-    ge = guard_edge_set(cfg, wanted, bypass)
+    ge = guard_edge_set(cfg, wanted, bypass, rewrite)
     return cfg.path([cfg.entry], targets, avoid_edges=lambda s, d, lab: (s, lab) in ge, avoid_nodes=extra_avoid_nodes)
 
 
